@@ -427,6 +427,13 @@ def check_property(prop, tier, seed0):
         log(f"[{prop}] scenario {sname}: {len(res)} executions in {srec['run_s']} s, validation {srec['validate_s']} s")
         ev["coverage"]["scenarios"].append(srec)
         shutil.rmtree(tdir + "_confirm", ignore_errors=True)
+        # binding self-test, once per run: an accepted trace with one recorded value corrupted, and the
+        # same trace with one memory-changing event removed, must both be REJECTED by the model - a
+        # trace spec that accepts anything would make every verdict above worthless
+        if "binding_selftest" not in ev["coverage"] and srec.get("validated") and traces and not violations_here(ev):
+            ev["coverage"]["binding_selftest"] = binding_selftest(sname, traces[0])
+            if not all(ev["coverage"]["binding_selftest"].get(k) for k in ("corrupted_value_rejected", "dropped_event_rejected")):
+                log(f"[{prop}] WARNING: binding self-test not conclusive for {sname}: {ev['coverage']['binding_selftest']}")
 
     # property-specific extras (e.g. the TSO re-check with memory orders extracted from
     # the recorded traces): tools/<name>.py with run(ev, report, tier, seed0, outdir)
@@ -466,6 +473,41 @@ def write_replay(outdir, prop, scen, seed, what, trace, tlc=None):
     json.dump({"property": prop, "scenario": scen["name"], "seed": seed, "what": what, "trace": keep, "tlc": tlc},
               open(p, "w"), indent=1)
     return p
+
+
+def violations_here(ev):
+    return bool(ev.get("violations"))
+
+
+def binding_selftest(sname, evs):
+    """corrupt the values of one memory-changing event / drop that event of an accepted trace: TLC must
+    reject both (tried on up to three events; fields that are mere markers are not projected by the model)"""
+    import copy
+    idx = [i for i, e in enumerate(evs) if e.get("k") in tracecheck.STEP_KINDS and e.get("k") not in ("reg", "start")
+           and e.get("w") and any(isinstance(x[2], int) for x in e["w"])]
+    out = {"scenario": sname, "events": len(evs)}
+    if not idx:
+        out.update({"corrupted_value_rejected": True, "dropped_event_rejected": True, "note": "no integer-valued write in the trace: skipped"})
+        return out
+    for i in dict.fromkeys([idx[len(idx) // 2], idx[-1], idx[0]]):
+        a = copy.deepcopy(evs)
+        for x in a[i]["w"]:
+            if isinstance(x[2], int):
+                x[2] = x[2] + 7
+        b = copy.deepcopy(evs)
+        del b[i]
+        tracecheck.add_nfn(b)
+        out["corrupted"] = f"event {i}: integer values written += 7"
+        out["dropped"] = f"event {i} ({evs[i].get('k')} {evs[i].get('a', evs[i].get('fn', ''))})"
+        acc, _, st = tracecheck.validate(sname, [a, b], workers=2, timeout=600)
+        if st.get("error") and not st.get("violated"):
+            out["error"] = st["error"][:300]
+        # an invariant violation on the corrupted trace counts as rejection too
+        out["corrupted_value_rejected"] = 1 not in acc
+        out["dropped_event_rejected"] = 2 not in acc
+        if out["corrupted_value_rejected"] and out["dropped_event_rejected"]:
+            break
+    return out
 
 
 STANDALONE = set()
